@@ -235,6 +235,9 @@ class BitcoinFramer(BinaryFramer):
             fill = 12 - len(command)
             if fill < 0:
                 raise ValueError(f'command {command} too long')
+            if command.endswith(b'\0'):
+                # Indistinguishable from the zero padding; the receiver would strip it
+                raise ValueError(f'command {command} ends with a NUL byte')
             return command + bytes(fill)
 
         super().__init__()
